@@ -47,5 +47,12 @@ func handCases() []Case {
 		mk(&RSpec{Receiver: "r0", Routes: []*RSpec{
 			{Continue: true, Routes: []*RSpec{{Continue: true, Receiver: "r1", Routes: []*RSpec{{Continue: true, Matchers: []MSpec{{"=", "a", "x"}}}, {Receiver: "r2"}}}}},
 			{Receiver: "r3", Match: []KV{{"a", "x"}}}}}),
+		// values with runes strconv does not call printable (pasted NO-BREAK SPACE, emoji joined by ZERO WIDTH JOINER): the
+		// configuration served by GET /api/v2/status must route them like the dispatcher's tree (amtool --alertmanager.url)
+		{Receivers: receivers, TIs: tiNames, Root: &RSpec{Receiver: "r0", Routes: []*RSpec{
+			{Receiver: "r1", Matchers: []MSpec{{"=", "a", "core\u00a0platform"}}},
+			{Receiver: "r2", Matchers: []MSpec{{"=", "b", "\U0001F468\u200d\U0001F469"}}},
+			{Receiver: "r3", Matchers: []MSpec{{"!=", "c", "x\ty"}, {"=", "a", "x"}}}}},
+			LabelSets: []map[string]string{{}, {"a": "core\u00a0platform"}, {"a": "core platform"}, {"b": "\U0001F468\u200d\U0001F469"}, {"b": "\U0001F468\U0001F469"}, {"a": "x", "c": "x\ty"}, {"a": "x", "c": "x y"}, {"a": "x"}}},
 	}
 }
